@@ -27,17 +27,23 @@ TOL = 1e-9
 
 def scale_of(x):
     """Norm of the data: tolerances are RELATIVE to it (tiny-scale inputs are judged as strictly)."""
-    n = float(np.sqrt(sum(np.sum(np.abs(np.asarray(b)) ** 2) for b in x.blocks.values())))
+    m = max((float(np.abs(np.asarray(b)).max(initial=0)) for b in x.blocks.values()), default=0.0)
+    if not m > 0:
+        return 1.0
+    # (scaled by the largest element first: the squares of 1e-170 or 1e160 leave the float range)
+    n = m * float(np.sqrt(sum(np.sum(np.abs(np.asarray(b) / m) ** 2) for b in x.blocks.values())))
     return n if n > 0 else 1.0
 
 
 def maybe_tiny(ctx, rng, x):
     """Scale all data of x by a tiny or huge factor in a share of the cases."""
     if rng.random() < 0.12:
-        f = rng.choice([1e-9, 1e-12, 1e-6, 1e7])
+        f = rng.choice([1e-9, 1e-12, 1e-6, 1e7, 1e-100, 1e100, 1e-170, 1e160])
         for s_ in list(x.blocks):
             x.blocks[s_] = x.blocks[s_] * f
         ctx.count("feature", "rescaled-data")
+        if f in (1e-170, 1e160):
+            ctx.count("feature", "extreme-scale-data")
     return x
 
 
